@@ -1559,7 +1559,9 @@ fn scenarios(seed: u64) {
         // F4: tiny limit, zero-sized over-aligned request: a zero-capacity chunk
         run_scenario::<M>(base + 5, seed, 0, 0, &[Sc::Limit(Some(10)), Sc::Alloc(0, 4096, 1), Sc::Alloc(0, 32, 1), Sc::Alloc(0, 64, 2), Sc::Reset]);
         // F5: tiny limit, nothing held, the global allocator refuses: the slow path must return
-        run_scenario::<M>(base + 6, seed, 0, 0, &[Sc::Limit(Some(100)), Sc::FailAll(true), Sc::Alloc(0, 8, 1), Sc::Alloc(5, 1, 1), Sc::FailAll(false), Sc::Alloc(5, 1, 1)]);
+        // (the zero-sized request must be over-aligned, or the static empty chunk serves it)
+        run_scenario::<M>(base + 6, seed, 0, 0, &[Sc::Limit(Some(100)), Sc::FailAll(true), Sc::Alloc(0, 4096, 1), Sc::Alloc(0, 8, 1), Sc::Alloc(5, 1, 1), Sc::FailAll(false), Sc::Alloc(5, 1, 1)]);
+        run_scenario::<M>(base + 9, seed, 0, 0, &[Sc::Limit(Some(40)), Sc::FailAll(true), Sc::Alloc(0, 64, 2), Sc::FailAll(false), Sc::Alloc(0, 64, 1)]);
         run_scenario::<M>(base + 7, seed, 0, 0, &[Sc::Limit(Some(447)), Sc::FailAll(true), Sc::Alloc(0, 1, 2), Sc::FailAll(false)]);
         // F6: a limit set below what is already held
         run_scenario::<M>(base + 8, seed, 1, 17, &[Sc::Limit(Some(100)), Sc::Alloc(1000, 1, 1), Sc::Alloc(5000, 8, 2), Sc::Limit(Some(0)), Sc::Alloc(600, 1, 1)]);
